@@ -353,7 +353,7 @@ fn texts_close(a: &str, b: &str) -> bool {
 #[cfg(shadow_http)]
 struct HttpTwinU {
     client: crate::threads::shadow_uist::uistv1_client::Client,
-    data: actix_web::web::Data<crate::threads::shim::Mutex<crate::threads::shadow_uist::AppState>>,
+    data: actix_web::web::Data<crate::threads::shadow_uist::uistv1_server::UistState>,
 }
 
 #[cfg(shadow_http)]
@@ -387,7 +387,7 @@ impl HttpTwinU {
             }
             su::AppState::create(&mut m)
         };
-        let mut t = HttpTwinU { client: su::uistv1_client::Client::new("http://sim".to_string()), data: actix_web::web::Data::new(crate::threads::shim::Mutex::new(state)) };
+        let mut t = HttpTwinU { client: su::uistv1_client::Client::new("http://sim".to_string()), data: actix_web::web::Data::new(<su::uistv1_server::UistState as crate::threads::shim::Peek<su::AppState>>::make(state)) };
         // one service per run; it stays installed for this thread until the next run installs its own
         t.install();
         Some(t)
